@@ -1287,7 +1287,7 @@ class Fn:
             r_ = self.t["calls"][fname](self, args, kw, env)
             if self.t.get("mode_safe"):
                 self.callee_checks(r_[0])
-                for _v, call_text_ in self.pending[pmark_:]:
+                for _v, call_text_, _e in self.pending[pmark_:]:
                     self.callee_checks(call_text_)
             return r_
         if fname.endswith(".unpack") and len(args) == 1 and not kw:
@@ -1940,14 +1940,16 @@ class Fn:
             return self.t["err_default"]
         return "none"
 
-    def raising(self, call_text, t):
-        """a call that may raise (its translation has type Option t): bound before the current statement; its value is the temp"""
+    def raising(self, call_text, t, err=None):
+        """a call that may raise (its translation has type Option t): bound before the current statement; its value is the temp.
+        `err`: how THIS call's exception leaves the function, when the target tells exceptions apart (else the enclosing wrapper's /
+        the target's default)"""
         if self.no_raise > 0:
             raise NotTranslatable("a call that may raise inside a short-circuit / conditional expression")
         if getattr(self, "cur_ret", None) and str(self.cur_ret).startswith("Option (") and getattr(self, "in_while", 0):
             raise NotTranslatable("a call that may raise inside a while loop")
         var = f"r{len(self.pending)}_{self.tmp_counter()}"
-        self.pending.append((var, call_text))
+        self.pending.append((var, call_text, err))
         self.used_raising = True
         return (var, t)
 
@@ -2389,8 +2391,9 @@ def _block(self, stmts, env, cont, ind):
         mine = self.pending[mark:]
         del self.pending[mark:]
         pad = "  " * ind
-        for var, call in reversed(mine):
-            out = f"{pad}Option.elim {par(call)} {self.wrap_ret(self.none_value())} (fun {var} =>\n{out})"
+        for var, call, err_ in reversed(mine):
+            err_ = self.none_value() if (err_ is None or self.t.get("mode_safe")) else err_
+            out = f"{pad}Option.elim {par(call)} {self.wrap_ret(err_)} (fun {var} =>\n{out})"
     return out
 
 
